@@ -15,7 +15,7 @@
 From Coq Require Import List NArith Bool.
 From Falco Require Import Base.Bytes Model.HdrField Model.Hdr Model.HdrSpec Gen.HdrTables
   Model.HdrMulti Proofs.HdrScan Proofs.HdrItems Proofs.HdrStore Proofs.HdrLaws1 Proofs.HdrLaws2 Proofs.HdrLaws3 Proofs.HdrExamples
-  Proofs.HdrMulti.
+  Proofs.HdrMulti Proofs.HdrWildcard.
 Import ListNotations.
 
 (* ---- refinement ------------------------------------------------------------------------- *)
@@ -159,6 +159,35 @@ Proof. exact quoted_token_refuted. Qed.
 Theorem C17_pattern_pinned : map n2b field_pattern = expected_pattern /\ map n2b quote_class = expected_class.
 Proof. exact pattern_pinned. Qed.
 
+(* ---- wildcard unset: `unset obj.http.<prefix>*`  ([wild p] = p followed by a star).
+   For EVERY state, prefix and name: after the wildcard unset a header whose name starts with the
+   prefix - letters compared without case, any spelling of the name - reads as NOT SET, as a whole
+   and in every sub-field; every other read is unchanged; two spellings of the prefix do the same.
+   (On the tree before the repair the prefix was compared as written against the canonical key and
+   the assigned marks were kept: C17_wildcard_old_refuted - setting req.http.X-A and then unsetting
+   with the prefix X- read as an empty SET string, and unsetting with the prefix x- removed nothing.) *)
+Theorem C17_wildcard_unset_notset : forall kd st p name n key f,
+  protected (wild p) = false -> cut_colon name = (n, key, f) -> is_prefix p (canon n) = true ->
+  h_get kd (fst (step kd st (OUnset (wild p)))) name = Some RNotSet /\ snd (step kd st (OUnset (wild p))) = OOk.
+Proof. exact wildcard_unset_notset. Qed.
+
+Theorem C17_wildcard_unset_frame : forall kd st p name n key f,
+  protected (wild p) = false -> cut_colon name = (n, key, f) -> is_prefix p (canon n) = false ->
+  h_get kd (fst (step kd st (OUnset (wild p)))) name = h_get kd st name.
+Proof. exact wildcard_unset_frame. Qed.
+
+Theorem C17_wildcard_unset_case : forall kd st p q,
+  map lower p = map lower q -> protected (wild p) = false -> protected (wild q) = false ->
+  step kd st (OUnset (wild p)) = step kd st (OUnset (wild q)).
+Proof. exact wildcard_unset_case. Qed.
+
+Theorem C17_wildcard_old_refuted :
+  exists st p name, header_get st name <> [] /\ is_prefix p (canon name) = true /\
+    (h_get KReq (h_unset_wild_old st p) name <> Some RNotSet) /\
+    exists st2 p2, is_prefix p2 (canon name) = true /\ header_get st2 name <> [] /\
+      header_get (h_unset_wild_old st2 p2) name <> [].
+Proof. exact wildcard_old_refuted. Qed.
+
 Print Assumptions C17_refine_step.
 Print Assumptions C17_refinement.
 Print Assumptions C17_get_field_refines.
@@ -184,3 +213,7 @@ Print Assumptions C17_embedded_key_refuted.
 Print Assumptions C17_trailing_backslash_refuted.
 Print Assumptions C17_quoted_token_refuted.
 Print Assumptions C17_pattern_pinned.
+Print Assumptions C17_wildcard_unset_notset.
+Print Assumptions C17_wildcard_unset_frame.
+Print Assumptions C17_wildcard_unset_case.
+Print Assumptions C17_wildcard_old_refuted.
